@@ -1699,6 +1699,76 @@ func raceScenario(which string) {
 				os.Exit(67)
 			}
 		}
+		// a state machine whose actions run while background goroutines of the test case keep calling T's methods (readers and
+		// writers of its lock): `Repeat` asks T after every action and check — nothing may get stuck, every cleanup runs
+		{
+			done := make(chan string, 1)
+			go func() {
+				for round := 0; round < 12; round++ {
+					var registered, ran int64
+					fl := baseFlags()
+					fl.Checks = 4
+					fl.Seed = uint64(100 + round)
+					tb := newRecTB("repeat-bg")
+					withFlags(fl, func() {
+						runTB(func() {
+							rapid.VerifCheckTB(tb, farDeadline(), func(t *rapid.T) {
+								stop := make(chan struct{})
+								var wg sync.WaitGroup
+								for g := 0; g < 8; g++ {
+									wg.Add(1)
+									go func(g int) {
+										defer wg.Done()
+										for {
+											select {
+											case <-stop:
+												return
+											default:
+											}
+											_ = t.Failed()
+											if g%2 == 0 {
+												atomic.AddInt64(&registered, 1)
+												t.Cleanup(func() { atomic.AddInt64(&ran, 1) })
+											} else {
+												t.Logf("bg %d", g)
+												_ = t.Name()
+											}
+										}
+									}(g)
+								}
+								n := 0
+								t.Repeat(map[string]func(*rapid.T){
+									"inc": func(t *rapid.T) { n++ },
+									"dec": func(t *rapid.T) { n-- },
+									"":    func(t *rapid.T) { _ = t.Failed() },
+								})
+								close(stop)
+								wg.Wait()
+							})
+						})
+					})
+					if tb.failed {
+						done <- "a state machine that never fails, run next to goroutines that call Failed/Cleanup/Logf/Name: Check reports " + tbVerdict(tb)
+						return
+					}
+					if registered != ran {
+						done <- fmt.Sprintf("%d cleanups registered from goroutines during Repeat, %d ran", registered, ran)
+						return
+					}
+				}
+				done <- ""
+			}()
+			select {
+			case what := <-done:
+				if what != "" {
+					fmt.Println("LOST: " + what)
+					os.Exit(67)
+				}
+			case <-time.After(45 * time.Second):
+				fmt.Println("LOST: deadlock: T.Repeat next to goroutines that call t.Failed / t.Cleanup / t.Logf / t.Name did not finish in 45s")
+				os.Exit(67)
+			}
+		}
 		// all goroutines observe one and the same context, also when their first calls overlap
 		{
 			gtb := &gateTB{recTB: newRecTB("gate"), both: make(chan struct{})}
